@@ -69,22 +69,30 @@ func c04Gid() int64 {
 }
 
 var c04DumpMu sync.Mutex
+var c04DumpBuf = make([]byte, 1<<20)
 
 // c04States returns the scheduler state of every goroutine ("running", "select", "sync.Mutex.Lock", ...).
 func c04States() map[int64]string {
 	c04DumpMu.Lock()
 	defer c04DumpMu.Unlock()
-	buf := make([]byte, 1<<20)
+	var buf []byte
 	for {
-		n := runtime.Stack(buf, true)
-		if n < len(buf) {
-			buf = buf[:n]
+		n := runtime.Stack(c04DumpBuf, true)
+		if n < len(c04DumpBuf) {
+			buf = c04DumpBuf[:n]
 			break
 		}
-		buf = make([]byte, 2*len(buf))
+		c04DumpBuf = make([]byte, 2*len(c04DumpBuf))
 	}
 	res := map[int64]string{}
-	for _, blk := range bytes.Split(buf, []byte("\n\n")) {
+	for len(buf) > 0 {
+		// one block per goroutine, separated by an empty line; only the header line is needed
+		var blk []byte
+		if i := bytes.Index(buf, []byte("\n\n")); i >= 0 {
+			blk, buf = buf[:i], buf[i+2:]
+		} else {
+			blk, buf = buf, nil
+		}
 		if !bytes.HasPrefix(blk, []byte("goroutine ")) {
 			continue
 		}
@@ -473,6 +481,10 @@ func (e *c04Eng) shutdown() {
 	ctx, cancel := context.WithTimeout(context.Background(), 2*time.Second)
 	defer cancel()
 	_ = e.node.Shutdown(ctx)
+	_ = e.client.close(DisconnectForceNoReconnect)
+	for _, oc := range e.others {
+		_ = oc.close(DisconnectForceNoReconnect)
+	}
 	for _, d := range e.started {
 		_ = d.Close()
 	}
@@ -617,6 +629,7 @@ func (e *c04Eng) quiesce() {
 	deadline := time.Now().Add(8 * time.Second)
 	tm := time.NewTimer(time.Hour)
 	defer tm.Stop()
+	wait := time.Millisecond
 	for {
 		if e.isQuiet(false) {
 			break
@@ -628,11 +641,15 @@ func (e *c04Eng) quiesce() {
 			default:
 			}
 		}
-		tm.Reset(time.Millisecond)
+		tm.Reset(wait)
 		select {
 		case <-e.wake:
+			wait = time.Millisecond
 			continue
 		case <-tm.C:
+		}
+		if wait < 32*time.Millisecond {
+			wait *= 2 // a goroutine that is merely waiting for a CPU: look less often
 		}
 		if e.isQuiet(true) {
 			// confirm after yielding: a goroutine woken by the last action may not have run yet
@@ -1029,6 +1046,8 @@ type c04ChObs struct {
 	Pres  bool    `json:"pres"`
 	BSub  bool    `json:"bsub"`
 	Deliv int     `json:"deliv"`
+	FPres bool    `json:"fpres"`
+	FJL   bool    `json:"fjl"`
 }
 
 type c04Obs struct {
@@ -1104,6 +1123,10 @@ func (e *c04Eng) observe() c04Obs {
 		if ctx, ok := c.channels[ch]; ok {
 			g := ctx.subGen
 			co.Ctx = &g
+			if channelHasFlag(ctx.flags, flagSubscribed) {
+				co.FPres = channelHasFlag(ctx.flags, flagEmitPresence)
+				co.FJL = channelHasFlag(ctx.flags, flagEmitJoinLeave)
+			}
 		}
 		c.mu.RUnlock()
 		co.IsSub = c.IsSubscribed(ch)
@@ -1209,7 +1232,7 @@ func (e *c04Eng) obsCoq(o c04Obs) string {
 	var chs, tr []string
 	for _, c := range o.Chs {
 		chs = append(chs, vApp("mkChObs", vN(uint64(c.Ch)), c04OptN(c.Ctx), vBool(c.IsSub), c04OptN(c.Hub),
-			vN(uint64(c.NSubs)), vBool(c.Pres), vBool(c.BSub), vN(uint64(c.Deliv))))
+			vN(uint64(c.NSubs)), vBool(c.Pres), vBool(c.BSub), vN(uint64(c.Deliv)), vBool(c.FPres), vBool(c.FJL)))
 	}
 	for _, ev := range o.Trace {
 		tr = append(tr, e.evCoq(ev))
@@ -1315,7 +1338,8 @@ func c04RunPlanOnce(p c04Plan, r *rand.Rand) (res c04Result, unsafe bool) {
 		}
 	}
 	return c04Result{Term: term, Class: p.Name, Nontriv: len(e.cmdsCoq) >= 4 && o.Stuck == "",
-		JS: map[string]any{"plan": p.Name, "key": p.Key, "armed": armed, "cmds": e.cmdsJS, "obs": o}}, e.timingUnsafe
+		JS: map[string]any{"plan": p.Name, "key": p.Key, "armed": armed, "cmds": e.cmdsJS, "obs": o,
+			"jl": c04JLClass(o, e.chs)}}, e.timingUnsafe
 }
 
 // ---- plans ------------------------------------------------------------------------------------
@@ -1346,7 +1370,10 @@ func c04Connect(e *c04Eng) {
 }
 
 // c04RandomWalk: random interleaving of operation starts and gate releases.
-func c04RandomWalk(steps int) func(e *c04Eng, r *rand.Rand) {
+func c04RandomWalk(steps int) func(e *c04Eng, r *rand.Rand) { return c04RandomWalkOpt(steps, 0) }
+
+// c04RandomWalkOpt: preferJoin = percentage of release choices that pick a parked PublishJoin first.
+func c04RandomWalkOpt(steps int, preferJoin int) func(e *c04Eng, r *rand.Rand) {
 	return func(e *c04Eng, r *rand.Rand) {
 		nch := len(e.chs)
 		if r.Intn(100) < 92 {
@@ -1360,6 +1387,13 @@ func c04RandomWalk(steps int) func(e *c04Eng, r *rand.Rand) {
 			ps := e.parked()
 			if len(ps) > 0 && r.Intn(100) < 45 {
 				p := ps[r.Intn(len(ps))]
+				if r.Intn(100) < preferJoin {
+					for _, q := range ps {
+						if q.kind == c04GkJoin {
+							p = q
+						}
+					}
+				}
 				b := r.Intn(100) < 85
 				e.release(p, b)
 				if p.kind == c04GkBrokerUnsub && !b {
@@ -1440,4 +1474,37 @@ func c04RunAll(w *verifW, mk func(i int, r *rand.Rand) c04Plan) {
 		}
 		w.Case(i, res.Term, res.JS, res.Class, res.Nontriv)
 	}
+}
+
+
+// c04JLClass classifies the observed join/leave word of each channel the way Harness/C07.v's oracle does;
+// the result is the canonical finding key of the case ("" when the property holds).
+func c04JLClass(o c04Obs, chs []string) string {
+	for i, ch := range chs {
+		open := 0
+		for _, ev := range o.Trace {
+			if ev.Ch != ch {
+				continue
+			}
+			switch ev.Kind {
+			case "join":
+				open++
+			case "leave":
+				if open == 0 {
+					return "C07-leave-before-join"
+				}
+				open--
+			}
+		}
+		if o.Settled && o.Stuck == "" && i < len(o.Chs) {
+			want := 0
+			if o.Chs[i].IsSub && o.Chs[i].FJL {
+				want = 1
+			}
+			if open != want {
+				return "C07-join-leave-unbalanced"
+			}
+		}
+	}
+	return ""
 }
